@@ -141,6 +141,8 @@ static int run_case(int64_t lib_index, const Cfg& cfg, int cycles) {
     }
     std::string file = dir + "/c02.oas";
     Library* cur = src;
+    c02::Model first_model;  // model of the library re-loaded in cycle 1
+    bool have_first = false, first_load_changed_representation = false;
     std::string outcome = info.family + "|" + fmt("%02x", cfg.flags & 0xf0);
     for (int cycle = 1; cycle <= cycles; cycle++) {
         R->count("roundtrips");
@@ -215,6 +217,16 @@ static int run_case(int64_t lib_index, const Cfg& cfg, int cycles) {
         ctx.circle_tolerance_grid = cfg.tol * src_scaling;
         ctx.reader_tolerance_grid = 1;
         diffs = c02::compare(cur_model, next_model, ctx);
+        // from the first re-loaded library on, a further save/load must not change the standard properties either
+        // (multisets with multiplicities; cycle 1 itself is exempt: the source has none or stale ones)
+        // The standard properties in the FIRST file summarise the source; where the first load legitimately changes the
+        // representation (a circle accepted within tolerance, a by-name reference resolved to a pointer, an outside cell
+        // turned into a by-name reference) the summary of the re-loaded library may differ once: there the chain is
+        // compared from the second re-loaded library on (the second save of the SAME library below is always strict).
+        // Between the first and second re-loaded library the values that summarise geometry / file layout are exempt as
+        // well (first file: un-rounded source; second: library on the grid) - their multiplicities are not.
+        if (cycle > 1 && diffs.empty() && !(cycle == 2 && first_load_changed_representation)) diffs = c02::compare_std(cur_model, next_model, cycle, "save_reloaded_library", cycle > 2);
+        if (cycle == 1 && (ctx.circles_within_tolerance > 0 || cur_model.representation_changes_on_load)) first_load_changed_representation = true;
         if (rerr != expect_rerr && diffs.empty()) {
             report("read_error", {{"error_code", jint((int)rerr)}}, lib_index, cfg, cycle, cycles, fmt("read_oas reported error code %d, expected %d", (int)rerr, (int)expect_rerr));
             nviol++;
@@ -242,10 +254,38 @@ static int run_case(int64_t lib_index, const Cfg& cfg, int cycles) {
             outcome += "|" + cls;
             nviol++;
         }
+        if (cycle == 1 && diffs.empty()) { first_model = next_model; have_first = true; }
         if (cur != src) { cur->free_all(); free_allocation(cur); }
         cur = next;
         cur_model = next_model;
         if (!diffs.empty()) break;  // later cycles would only repeat the damage
+    }
+    // ---- save the SAME in-memory library a second time (write_oas has refreshed its standard properties once
+    //      already): the file must load to exactly the library the first save loaded to, standard properties included
+    if (have_first && cycles >= 2 && (cfg.flags & OASIS_CONFIG_STANDARD_PROPERTIES) && !info.lattice) {
+        R->count("roundtrips");
+        R->count("resaves_of_the_same_library");
+        c02::Props src_std1 = c02::walk_props(src->properties, true);
+        unlink(file.c_str());
+        ErrorCode werr = src->write_oas(file.c_str(), cfg.tol, cfg.level, cfg.flags);
+        if (werr != ErrorCode::NoError) { report("resave:write_error", {{"error_code", jint((int)werr)}}, lib_index, cfg, 1, cycles, fmt("second write_oas of the same library returned error code %d", (int)werr)); nviol++; }
+        std::vector<c02::Diff> diffs;
+        c02::compare_std_one(diffs, "library", "source library (in memory)", src_std1, c02::walk_props(src->properties, true), 1, "save_same_library_again_in_memory");
+        ErrorCode rerr = ErrorCode::NoError;
+        Library loaded = read_oas(file.c_str(), 0, 0, &rerr);
+        c02::Model again = c02::walk(loaded);
+        c02::CompareCtx ctx;
+        ctx.flags = cfg.flags;
+        ctx.cycle = 2;
+        for (auto& d : c02::compare(first_model, again, ctx)) diffs.push_back(d);
+        for (auto& d : c02::compare_std(first_model, again, 1, "save_same_library_again")) diffs.push_back(d);
+        for (auto& d : diffs) {
+            std::string cls = d.cls.rfind("standard_properties", 0) == 0 ? d.cls : "resave:" + d.cls;
+            report(cls, d.tags, lib_index, cfg, 1, cycles, d.detail, d.numbers);
+            outcome += "|" + cls;
+            nviol++;
+        }
+        loaded.free_all();
     }
     if (cur != src) { cur->free_all(); free_allocation(cur); }
     oas_corpus::destroy(src);
@@ -426,6 +466,24 @@ int main(int argc, char** argv) {
                   fmt("%lld %s x all 256 flag sets x level {%s} x circle tolerance {0, 1e-3} (= %zu configurations) x %d cycles", (long long)nlibs,
                       thorough ? "libraries of the reduced alphabet (representatives + one member per kind and state-bearing attribute)" : "representative multi-element libraries", thorough ? "0..9" : "0,6", cfgs.size(),
                       cycles),
+                  tasks, 30);
+    }
+    // ---- 2b. cycle dimension of the standard properties: libraries with >= 2 top-level cells x every subset of the four
+    //      standard-property flags (each alone, every pair, ...) x {no signature, CRC32} x level {0,6} x 4 cycles
+    //      (+ the second save of the same in-memory library in every case)
+    if (!run.out_of_time()) {
+        std::vector<Task> tasks;
+        std::vector<uint16_t> fl;
+        for (int f = 0; f < 16; f++) { fl.push_back((uint16_t)f); fl.push_back((uint16_t)(f | OASIS_CONFIG_INCLUDE_CRC32)); }
+        std::vector<Cfg> cfgs = product(fl, thorough ? all_levels : std::vector<int>{0, 6}, {0});
+        int64_t nlibs = 0;
+        for (int64_t i = 0; i < N; i++) {
+            if (!oas_corpus::info(i).multi_top) continue;
+            nlibs++;
+            add_tasks(tasks, i, cfgs, 16, 4);
+        }
+        run_tasks("standard_property_cycles", fmt("%lld libraries with >= 2 top-level cells (fresh, and with stale S_* runs at the head / in the middle of the property lists) x all 16 subsets of the standard-property flags x {no signature, CRC32} x level {%s} x 4 save/load cycles + second save of the same in-memory library",
+                                                  (long long)nlibs, thorough ? "0..9" : "0,6"),
                   tasks, 30);
     }
     // ---- 3. the 4x4 lattice family (every triangle / every quadrilateral with two axis-parallel sides)
